@@ -118,7 +118,7 @@ theorem extBy_bind {s s' : State} {t : Tid} {th th' : Thread} {x : Nat} {r : Ref
 theorem openAt_succ {code : List Instr} {pc : Nat} {ins : Instr} (h : code[pc]? = some ins) :
     openAt code (pc + 1) = openStep (openAt code pc) ins := by
   unfold openAt
-  rw [List.take_succ, h]
+  rw [List.take_add_one, h]
   simp [List.foldl_append]
 
 theorem openAt_ge {code : List Instr} {pc : Nat} (h : code.length ≤ pc) (hb : balanced code = true) :
